@@ -259,12 +259,17 @@ def run_bucket(tape, prop, tier):
                             await tb.wait()
                             sends.append(loop.time())
                         # several wait() callers pending at once
-                        waiters.append(asyncio.ensure_future(waiter()))
+                        wt = asyncio.ensure_future(waiter())
+                        waiters.append(wt)
                         await asyncio.sleep(0)
+                        if frac % 7 == 0 and not wt.done():
+                            # the caller gives up while it waits (its token stays consumed: nothing is sent in its slot)
+                            loop.call_later(gap_unit * (frac % 5) / 10.0, wt.cancel)
+                            res.faults["waiter_cancelled"] += 1
         waiters = []
         await asyncio.gather(*[caller(i, s) for i, s in enumerate(scripts)])
         if waiters:
-            await asyncio.gather(*waiters)
+            await asyncio.gather(*waiters, return_exceptions=True)
         await asyncio.sleep(float(period) * 50 + 10)     # let every delayed send happen
         return t_create
 
